@@ -50,6 +50,7 @@ type Config struct {
 	Session          *solver.Session
 	InitPkgs         func(path string) bool // run this package's initialiser?
 	PruneBranch      bool
+	ForkPkgs         []string                  // fork mode for every function of these packages (in addition to ForkFuncs)
 	ConcreteFmt      bool                      // fmt.Sprintf/Fprintf and strings.Builder compute real text where all operands are concrete (default: opaque stubs)
 	SymbolicMapOrder bool                      // every range over a map visits its entries in an arbitrary (symbolic) order
 	SkipInitFuncs    func(pkgPath string) bool // do not run the user init() functions of these packages
@@ -106,6 +107,7 @@ type Engine struct {
 	trackExempt map[ObjID]bool
 	files       map[string]*SliceV
 	fmtFail     bool
+	PermutedRanges int // executions of a map range that were run in another order (device of verifMapOrderOne)
 	deferFrames int     // deferred calls registered and not yet run (over all live paths; paths that die without running theirs leave it too high, which only costs precision)
 	splits      int     // number of times an execution state was split in two
 	panicking   *unwind // set while deferred calls run because of a panic
@@ -346,6 +348,20 @@ func (fr *frame) defers(st *St) []deferRec {
 		return dl.recs
 	}
 	return nil
+}
+
+func (e *Engine) isFork(fn *ssa.Function) bool {
+	if e.Cfg.ForkFuncs[fn.Name()] {
+		return true
+	}
+	if fn.Pkg != nil {
+		for _, p := range e.Cfg.ForkPkgs {
+			if fn.Pkg.Pkg.Path() == p {
+				return true
+			}
+		}
+	}
+	return false
 }
 
 func fnHasDefer(fn *ssa.Function) bool {
@@ -717,7 +733,7 @@ func (e *Engine) callMulti(st *St, fn *ssa.Function, args []Value, bind []Value)
 	if e.Cfg.Trace && e.booting == 0 {
 		fmt.Fprintf(os.Stderr, "%*scall %s terms=%d\n", len(e.stack), "", fn.String(), e.S.Created)
 	}
-	fr := &frame{fn: fn, fi: e.info(fn), forkMode: e.Cfg.ForkFuncs[fn.Name()] && e.booting == 0, hasDefer: fnHasDefer(fn)}
+	fr := &frame{fn: fn, fi: e.info(fn), forkMode: e.isFork(fn) && e.booting == 0, hasDefer: fnHasDefer(fn)}
 	savedStack, savedPos := e.stack, e.posStack
 	e.stack = append(e.stack, fn)
 	e.posStack = append(e.posStack, token.NoPos)
